@@ -495,6 +495,33 @@ def address(chk, prog, cfg):
     pushes = [(blk, t) for blk, t in b.calls_to(r"Vec::<T, A>::push$")]
     ok = any(desc_contains(describe(prog, b, t["args"][1]), lambda x: x[0] == "call" and x[1].endswith("SocketAddr::ip")) for blk, t in pushes)
     chk.ob("R6.peer", fn, "peer address appended to proxies", ok, "the connecting peer is not recorded as the last proxy", cfg=cfg)
+    # "earlier ones plus the peer = proxies": apart from taking off the last element (the origin) the list of forwarded addresses is kept as listed
+    REMOVERS = r"(Vec::<T, A>::(retain|retain_mut|dedup|dedup_by|dedup_by_key|drain|swap_remove|clear|insert|split_off|extract_if|splice|remove|truncate)|<impl \[T\]>::(sort|sort_by|sort_by_key|sort_unstable|sort_unstable_by|sort_unstable_by_key|sort_by_cached_key|reverse|rotate_left|rotate_right|swap|fill|copy_from_slice|select_nth_unstable))$"
+    n = 0
+    for blk, t in b.calls():
+        tys = t.get("arg_tys") or []
+        if tys and "IpAddr" in tys[0] and core.call_matches(t, r"(Vec::<T, A>::pop|<impl \[T\]>::(split_last|last))$"):
+            n += 1
+        if not tys or "IpAddr" not in tys[0] or not core.call_matches(t, REMOVERS):
+            continue
+        n += 1
+        last = t["callee"].rsplit("::", 1)[-1]
+        ok = False
+        why = f"{last} on the list of forwarded addresses"
+        if last in ("remove", "truncate") and len(t["args"]) > 1:
+            ix_ = describe(prog, b, t["args"][1])
+            from .. import panics
+            ix_ = panics._strip(ix_)
+            # len - 1 (checked or plain subtraction)
+            ok = isinstance(ix_, tuple) and (ix_[0] == "field" and isinstance(ix_[1], tuple) and ix_[1][0] == "bin" and ix_[1][1].startswith("Sub") and
+                                             desc_contains(ix_[1][2], lambda y: y[0] == "call" and y[1].endswith("::len")) and ix_[1][3] == ("lit", 1)
+                                             or ix_[0] == "bin" and ix_[1].startswith("Sub") and desc_contains(ix_[2], lambda y: y[0] == "call" and y[1].endswith("::len")) and ix_[3] == ("lit", 1)
+                                             or ix_[0] == "call" and core.re.search(r"::(saturating_sub|wrapping_sub)$", ix_[1]) is not None and desc_contains(ix_[2][0], lambda y: y[0] == "call" and y[1].endswith("::len")) and ix_[2][1] == ("lit", 1))
+            why = f"{last}({panics.short_desc(ix_)})"
+        chk.ob("R6.proxies_kept", fn, "only the last listed address (the origin) is taken off the forwarded list", ok,
+               f"{why}: addresses other than the last one are removed / moved, so `proxies` is no longer the earlier addresses plus the peer "
+               "(a chain that repeats an address, e.g. `1.1.1.1, 2.2.2.2, 1.1.1.1`, loses hops)", where=b.where(blk), cfg=cfg)
+    chk.floor(f"sites that take the origin off the forwarded list [{cfg}]", n, 1)
 
 
 def run(chk):
